@@ -398,6 +398,10 @@ class Base(_BaseClass):
         some have no expectation like S or COMMENT, so simply return
         the current value of self.__expected
         """
+        if new is None:
+            # caller does not track wellformedness this way
+            new = {}
+
 
         def ATKEYWORD(expected, seq, token, tokenizer=None):
             "default impl for unexpected @rule"
@@ -512,6 +516,10 @@ class Base2(Base, _NewBase):
         some have no expectation like S or COMMENT, so simply return
         the current value of self.__expected
         """
+        if new is None:
+            # caller does not track wellformedness this way
+            new = {}
+
 
         def ATKEYWORD(expected, seq, token, tokenizer=None):
             "default impl for unexpected @rule"
